@@ -116,6 +116,7 @@ Inductive de_id : Type :=
 | DNum (bits : N) | DInt (bits : N)
 | DSplitWs        (* split_whitespace *)
 | DSplitNl        (* split('\n') *)
+| DSplitNlE       (* if text.is_empty() { vec![] } else { split('\n') } *)
 | DLines          (* lines() *)
 | DExt (id : N)
 | DUnrecognised.
@@ -212,6 +213,7 @@ Definition de (c : de_id) (s : str) : option uval :=
   | DInt bits => match parse_int bits s with Some z => Some (VInt z) | None => None end
   | DSplitWs => Some (VList (split_ws s))
   | DSplitNl => Some (VList (split_lf s))
+  | DSplitNlE => Some (VList (match s with [] => [] | _ => split_lf s end))
   | DLines => Some (VList (lines s))
   | DExt i => match ext_parse i s with Some e => Some (VExt e) | None => None end
   | DUnrecognised => None
@@ -387,7 +389,7 @@ Definition lossless_para_like (sk : ll_set_kind) (rk : ll_remove_kind) : ParaLik
 Definition rt_pair (s : ser_id) (d : de_id) : bool :=
   match s, d with
   | SStr, DStr | SBool, DBool | SYesNo, DYesNo | SJaNee, DJa
-  | SJoinWs, DSplitWs | SJoinNl, DSplitWs | SJoinNl, DSplitNl | SJoinNl, DLines => true
+  | SJoinWs, DSplitWs | SJoinNl, DSplitWs | SJoinNl, DSplitNl | SJoinNl, DSplitNlE | SJoinNl, DLines => true
   | SNum, DNum _ | SInt, DInt _ => true
   | SExt i, DExt j => (i =? j)%N
   | _, _ => false
@@ -456,22 +458,3 @@ Definition x_update_lossy (fs : list fieldspec) (v : xval) (p : list (str * str)
   update_paragraph str table_print lossy_para_like fs v p.
 Definition x_update_ll (sk : ll_set_kind) (rk : ll_remove_kind) (fs : list fieldspec) (v : xval) (p : ll_para) : option ll_para :=
   update_paragraph str table_print (lossless_para_like sk rk) fs v p.
-
-(* ------------------------------------------------------------------ apt-sources Signature *)
-(* Signature is an external codec for the theorems.  Its two functions are small enough to write
-   down: Display writes a key block as "\n" + text; FromStr (apt-sources/src/signature.rs) drops the
-   empty first line Display wrote ([sig_parse_strip], since 2e5530c).  Before that fix it kept the
-   whole text of anything containing a line feed ([sig_parse_keep]): every to_paragraph /
-   from_paragraph round of a Repository with a key block prepended one more line feed — found by
-   the derive stream of this cone, fixed in the repository while the cone was being built.  Which
-   of the two the tree has is read by the translator (flag sig_keyblock in structs.json) and decides
-   the expectations of the generators' Signature pool. *)
-Inductive sigval : Type := KeyBlock (t : str) | KeyPath (p : str).
-Definition sig_print (v : sigval) : str := match v with KeyBlock t => 10%N :: t | KeyPath p => p end.
-Definition has_lf (s : str) : bool := existsb (N.eqb 10) s.
-Definition sig_parse_keep (s : str) : sigval := if has_lf s then KeyBlock s else KeyPath s.
-Definition sig_parse_strip (s : str) : sigval :=
-  match s with
-  | 10%N :: r => KeyBlock r
-  | _ => if has_lf s then KeyBlock s else KeyPath s
-  end.
